@@ -22,6 +22,20 @@
 (*   RejectIsNoop Done /\ not the proper response => state unchanged        *)
 (*   FoldAgrees   the operational pipeline and the functional definition    *)
 (*                AllowedKinds agree                                        *)
+(*   ValidatedFirst / HandledOnlyIfAdmissible / AcceptOnlyHandled           *)
+(*                hold in the model; on the real code they are reported as  *)
+(*                notes only (the statement of C13 does not demand them)    *)
+(*                                                                          *)
+(* Decisions on what the statement demands (soundness first):               *)
+(*  - a rejection decided before any SOAP envelope is read (framing,        *)
+(*    content coding, path prefix; every rejection of a GET) may be a bare  *)
+(*    HTTP error status without SOAP body; later rejections need a          *)
+(*    well-formed SOAP fault (any status);                                  *)
+(*  - classes an implementation may legitimately treat either way get the   *)
+(*    verdict "any" (DOCTYPE present, duplicated body element, numbers at   *)
+(*    the edge of their type, missing MessageID, extra path segments,       *)
+(*    Content-Length larger than the body, long chunk extensions);          *)
+(*  - truncation = end of stream (the peer closed its sending side).        *)
 EXTENDS Naturals, Sequences, FiniteSets, TLC, Json
 
 CONSTANTS ProviderTargets,   \* request types of the provider answered to POST
@@ -153,7 +167,9 @@ RawVerdict(s, r) ==
 
 Verdict(s, r) == IF s \in {"Read", "Decode", "Route"} THEN RawVerdict(s, r) ELSE Weaken(r, RawVerdict(s, r))
 
-RejectKinds(s) == IF HttpLevel(s) THEN {"fault", "bare"} ELSE {"fault"}
+\* how a rejection decided in stage s may look: before any SOAP envelope is read (and for GET, which carries none)
+\* a bare HTTP error response is admissible; every later rejection carries a SOAP fault
+RejectKinds(s, r) == IF HttpLevel(s) \/ r.method = "GET" THEN {"fault", "bare"} ELSE {"fault"}
 
 \* functional definition of the admissible final outcomes
 RECURSIVE Fold(_, _, _)
@@ -162,8 +178,8 @@ Fold(r, i, kinds) ==
   ELSE LET s == StageSeq[i]
            v == Verdict(s, r) IN
        IF v = "pass" THEN Fold(r, i + 1, kinds)
-       ELSE IF v = "reject" THEN kinds \cup RejectKinds(s)
-       ELSE Fold(r, i + 1, kinds \cup RejectKinds(s))
+       ELSE IF v = "reject" THEN kinds \cup RejectKinds(s, r)
+       ELSE Fold(r, i + 1, kinds \cup RejectKinds(s, r))
 
 AllowedKinds(r) == Fold(r, 1, {})
 
@@ -234,7 +250,7 @@ Next_(s) == CASE s = "Read" -> "Decode" [] s = "Decode" -> "Route" [] s = "Route
               [] s = "Handle" -> "Respond"
 
 \* a rejection decided in stage s: error status with a SOAP fault (or, at the HTTP level, a bare error response)
-RejectAt(s) == /\ \E k \in RejectKinds(s) :
+RejectAt(s) == /\ \E k \in RejectKinds(s, req) :
                     out' = [kind |-> k, status |-> IF k = "bare" THEN "error" ELSE "any"]
                /\ stage' = "Respond"
 
